@@ -99,6 +99,7 @@ func (p ParallelBatchParser[T]) processAsync(batches []string, work func(int, st
 		go func(batchIndex int, batchText string) {
 			defer wg.Done()
 			result := work(batchIndex, batchText)
+			verifBeforeSend(batchIndex)
 			resultChannel <- result
 		}(i, b)
 	}
@@ -112,6 +113,7 @@ func (p ParallelBatchParser[T]) processAsync(batches []string, work func(int, st
 	// Collect results.
 	allResults := make([]batchResult[T], len(batches))
 	for result := range resultChannel {
+		verifOnCollect(result.index)
 		allResults[result.index] = result
 	}
 
